@@ -330,6 +330,16 @@ async def c13_part(ctx) -> None:
         await asyncio.wait_for(pairing.list_accessories_and_characteristics(), 60)
         notes = []
         pairing.dispatcher_connect(lambda ev: notes.append(ev) if ev else None)
+        def fold_back(ev, pairing=pairing):
+            # a realistic consumer (Home Assistant does this): fold every notified change into the pairing's model, so a later
+            # write of the value the model already holds is still a write the accessory accepted
+            try:
+                if ev and pairing.accessories:
+                    pairing.accessories.process_changes(ev)
+            except Exception:  # noqa: BLE001 - ids unknown to the model
+                pass
+
+        pairing.dispatcher_connect(fold_back)
         readable = [10, 11, 13, 14, 3]
         writable = {10: True, 11: 42, 12: 3, 14: 9}
         statuses = [0, 1, 2, 3, 4, 5, 6]
